@@ -27,7 +27,7 @@ type line struct {
 func (l line) coq() string {
 	strs := make([]string, len(l.Strs))
 	for i, s := range l.Strs {
-		strs[i] = vh.BytesTerm(s)
+		strs[i] = bt(s)
 	}
 	return fmt.Sprintf("(%d, [%s], %s)", l.Tag, strings.Join(strs, ";"), vh.NList(l.Nums))
 }
@@ -158,6 +158,13 @@ func msgLines(prefix string, file int, m *descriptorpb.DescriptorProto) []line {
 	}
 	for _, n := range m.NestedType {
 		out = append(out, msgLines(full, file, n)...)
+	}
+	// enums nested in the message (inline `enum { ... }` fields), after its nested messages
+	for _, e := range m.EnumType {
+		out = append(out, line{Tag: 4, Strs: []string{full + "." + e.GetName()}, Nums: []uint64{}})
+		for _, v := range e.Value {
+			out = append(out, line{Tag: 5, Strs: []string{v.GetName()}, Nums: []uint64{uint64(v.GetNumber())}})
+		}
 	}
 	return out
 }
